@@ -11,7 +11,7 @@ object members as the stored `key, value` node pairs in order (duplicates kept),
 `str_[p .. p + n)` of the document's **final** string buffer, numbers with their stored kind (`uint` / `sint` / `real`
 bit pattern).  `Spec.Json.parse` is the reference evaluator.
 
-Hypotheses as in `Props/C01.lean`; for numbers only `ExpSmall bs` (written exponents below 100000; known finding F6
+Hypotheses as in `Props/C01.lean`; for numbers only `ExpSmall bs` (written exponents below 100000 or tokens of at most 9600 bytes; known finding F6
 lives outside): by property C04 (`Proofs/ParseNumberOK.lean`: `numberOK_of_exp`) number tokens of an accepted document
 are stored with the kind and value `Spec.Number.scanNumber` gives.  `NumberCorrectOn bs`, the former per-input
 assumption, is gone: it is false for valid texts such as `["1.5.3"]` (see `Props/C01.lean`).
